@@ -301,7 +301,8 @@ namespace cnl {
                                 + overflow_digits<Rhs, polarity::positive>::value
                         > traits::positive_digits)
                     && ((lhs < Lhs{0}) ? (rhs > Rhs{0}) && (traits::lowest() / rhs) > lhs
-                                       : (rhs < Rhs{0}) && (traits::lowest() / rhs) < lhs);
+                                       // lhs >= 0 and rhs == -1 cannot overflow; lowest() / -1 is undefined
+                                       : (rhs < Rhs{0}) && (rhs != static_cast<Rhs>(-1)) && (traits::lowest() / rhs) < lhs);
             }
         };
 #if defined(__GNUC__)
